@@ -8,7 +8,6 @@ from harness.lib.core import VERIF, Ctx, lean_lock, run_driver, shrink_ops
 from harness.extract import software as x_sw
 from harness.rigs import software as rig
 
-MANIFEST_DISABLED = "being adapted to F-58 fix 4fd0695 (port-scan payload to a node without nmap is dropped)"
 MANIFEST = {
     "text": "Lean 4 proof about an executable model of Service / Application / Software (lifecycle methods, request validators, "
             "countdowns) and of a node's software layer (SoftwareManager.install with its 'already installed' guard and the eviction "
